@@ -317,7 +317,8 @@ class World:
                 p = os.path.join(self.root, 'loose', k[:pl], k[pl:]) if pl else os.path.join(self.root, 'loose', k)
                 how = op[2] if len(op) > 2 else 'overwrite'
                 data = m.content[k]
-                new = {'overwrite': b'#' + data[1:] if data else b'#', 'truncate': data[:-1] if data else b'+', 'extend': data + b'+'}[how]
+                new = {'overwrite': b'#' + data[1:] if data else b'#', 'truncate': data[:-1] if data else b'+', 'extend': data + b'+',
+                       'empty': b'' if data else b'+'}[how]
                 with REAL['open'](p, 'wb') as fh:
                     fh.write(new)
                 self.damaged.add(k)
